@@ -29,7 +29,12 @@ def obs_rows(case):
     return o["_rows"]
 
 
-STAGES = {"real-grammar": (obs_text, "DeriveText"), "real-grammar-rows": (obs_rows, "RulesTrace")}
+def _lat(case):
+    from .c09 import obs_lattice
+    return obs_lattice(case)
+
+
+STAGES = {"real-grammar": (obs_text, "DeriveText"), "real-grammar-rows": (obs_rows, "RulesTrace"), "lattice": (_lat, "LatticeTrace")}
 
 
 def run(ctx):
@@ -69,6 +74,20 @@ def run(ctx):
                 cases.append({"text": t, "ts": ts, "depth": depth, "scorer": scorer, "seed": seed, "label": "depth%d" % depth, "form": scorer})
     ctx.note("%d depth-0 runs skipped (more than 9 matches or 30 candidate sequences: exhaustive search not bounded)" % skipped)
     core.run_stage(ctx, "real-grammar", cases, obs_text, "DeriveText", nontrivial=lambda c: (c["text"], c["depth"], c["scorer"], c["seed"]))
+    # the candidate sequences themselves: the real lexer + _regex_stack against Lattice.tla (maximal gap-free paths),
+    # incl. texts with runs of blanks (raw) and labels cut out of the middle
+    from .c09 import obs_lattice
+    lat = []
+    for t, ts in texts:
+        if engine.text_size(t)[1] > 200:
+            continue
+        lat.append({"text": t})
+        ws = qa.CTP._preprocess_string(t).split(" ")
+        if len(ws) >= 2:
+            k = rnd.randrange(1, len(ws))
+            lat.append({"text": " ".join(ws[:k]) + "  " + " ".join(ws[k:]), "raw": True})
+            lat.append({"text": " ".join(ws[:k]) + "    " + " ".join(ws[k:]) + " ", "raw": True})
+    core.run_stage(ctx, "lattice", lat, obs_lattice, "LatticeTrace", sig_keys=(), nontrivial=lambda c: c["text"])
     sub = [c for c in cases if c["scorer"] == "dummy" and c["depth"] in (0, 10)]
     core.run_stage(ctx, "real-grammar-rows", sub, obs_rows, "RulesTrace", sig_keys=("text",), nontrivial=lambda c: (c["text"], c["depth"]))
 
